@@ -23,6 +23,7 @@ Clause(r) ==
                       ELSE IF th = 1000 /\ r.ip = r.w + 1 /\ r.fp = 0 THEN "" ELSE "three-decimal-form"
     [] r.t = "fromstr" -> LET dm == ParseDecimal(r.text) IN
                           IF ~dm.ok THEN "domain:not-a-decimal"
+                          ELSE IF dm.big THEN "domain:number-too-large-for-the-specification"
                           ELSE IF r.got = FromInexact(DecimalAsRat(dm)) THEN "" ELSE "from-str"
     [] r.t = "op" -> IF (NeedsNonZero(r.op) /\ r.b[1] = 0) \/ (NeedsNonZeroLeft(r.op) /\ r.a[1] = 0) THEN
                           (IF r.raised THEN "" ELSE "division-by-zero-not-raised")
@@ -31,6 +32,7 @@ Clause(r) ==
                      ELSE IF ~r.isbeat THEN "arithmetic-result-is-not-a-beat" ELSE ""
     [] r.t = "events" -> LET e == ParseEvents(r.text) IN
                          IF ~e.ok THEN (IF r.st # "ok" THEN "" ELSE "domain:malformed-accepted")
+                         ELSE IF e.big THEN "domain:number-too-large-for-the-specification"
                          ELSE IF r.st # "ok" THEN "events-rejected"
                          ELSE IF ~EvsOK(e.evs, r.evs) THEN "events-parse"
                          ELSE LET p == ParseEvents(r.printed) IN
